@@ -20,7 +20,7 @@
     chain sees as the current span through its own Context; for context-free filters it does not enter at all,
     [C07_static_filters]). *)
 From Coq Require Import NArith List Bool.
-From TV Require Import Stack.Model Stack.Model2 Stack.Spec Stack.Register Stack.Build Stack.Main Stack.TwoStacks Stack.Harness.
+From TV Require Import Stack.Model Stack.Model2 Stack.Spec Stack.Register Stack.Build Stack.Main Stack.TwoStacks Stack.Harness Stack.IdBound.
 Import ListNotations.
 Local Open Scope N_scope.
 
@@ -146,6 +146,46 @@ Theorem C07_F71_refuted :
     clean c 5 pool45 [OEvent cs] = true /\ misses c 5 pool45 [] cs n.
 Proof. exact F71_refuted. Qed.
 Print Assumptions C07_F71_refuted.
+
+(** ** More per-layer filters than a FilterMap has bits (Stack/IdBound.v).  `Registry::register_filter` hands out ids 0, 1, 2, ..
+    and `FilterId::new id` makes the mask; [register_n p n] = the masks of [n] registrations as compiled in build profile [p]
+    ([Debug] / [Release]), [None] = the stack is refused (panic while it is built).  Which profiles enforce `id < 64` is read
+    off the source on every run (`assert!`: both; `debug_assert!`: debug only - seeded change C07-J).
+    For EVERY number of attempted filters and every profile: a stack that is accepted has at most 64 filters, their masks are
+    the model's [fid_new 0 .. fid_new (n-1)], and any two distinct ones are disjoint single bits of a u64 - so one filter's
+    decision can never be read or cleared through another's FilterId. *)
+Theorem C07_filter_ids_disjoint : forall p n masks i j a b,
+  register_n p n = Some masks -> nth_error masks i = Some a -> nth_error masks j = Some b -> i <> j ->
+  N.land a b = 0 /\ a <= MAX64 /\ b <= MAX64 /\ a = fid_new (N.of_nat i) /\ b = fid_new (N.of_nat j).
+Proof. exact accepted_disjoint. Qed.
+Print Assumptions C07_filter_ids_disjoint.
+
+Theorem C07_accepted_ids : forall p n masks, register_n p n = Some masks ->
+  (N.of_nat n <= 64) /\ masks = map (fun i => fid_new (N.of_nat i)) (seq 0 n).
+Proof. exact accepted_ids. Qed.
+Print Assumptions C07_accepted_ids.
+
+Theorem C07_over_64_refused : forall p n, (64 < n)%nat -> register_n p n = None.
+Proof. exact over_64_refused. Qed.
+Print Assumptions C07_over_64_refused.
+
+(** non-vacuity: 64 filters are accepted in both profiles *)
+Example C07_accepts_64 : exists ma mb, register_n Debug 64 = Some ma /\ register_n Release 64 = Some mb /\ length mb = 64%nat.
+Proof. exact accepts_64. Qed.
+
+(** refuted without the refusal: where nothing enforces the bound the u64 shift wraps, filter #64 gets filter #0's mask (and #k+64
+    gets #k's), and what filter #64 stores in the bitmap is what filter #0 reads back *)
+Theorem C07_unchecked_bound_refuted :
+  fid_new_with false 0 = Some 1 /\ fid_new_with false 64 = Some 1 /\
+  (exists masks, register_from false 0 65 = Some masks /\ nth_error masks 0 = Some 1 /\ nth_error masks 64 = Some 1) /\
+  (forall id, fid_new_with false (id + 64) = fid_new_with false id \/ TVGen.Gen_stack.gen_filter_id_bound <= id).
+Proof. exact wrapping_aliases. Qed.
+Print Assumptions C07_unchecked_bound_refuted.
+
+Theorem C07_unchecked_bound_shares_decision_refuted : forall m0 m64 bits en,
+  fid_new_with false 0 = Some m0 -> fid_new_with false 64 = Some m64 -> fm_enabled (fm_set bits m64 en) m0 = en.
+Proof. exact wrapping_shares_decision. Qed.
+Print Assumptions C07_unchecked_bound_shares_decision_refuted.
 
 (** ** Non-vacuity *)
 (** the hypotheses of the headline hold for a stack with a global filter, nested and side-by-side per-layer filters,
